@@ -1,3 +1,66 @@
-import Mqtt5V.Basic
+import Mqtt5V.Model.Verdict
+import Mqtt5V.Props.C01
+/-! # C14 — SUBSCRIBE/UNSUBSCRIBE complete with exactly the broker's per-topic verdicts (matching + verdict core)
+
+* matching: SUBACK / UNSUBACK are routed to their waiter by (control code, packet identifier) exactly like the
+  publish acknowledgements (theorems of `Props.C01` about the `replies` model, instantiated below);
+* verdicts: the model of the check the operation applies to the decoded acknowledgement surfaces success only when
+  the acknowledgement carried exactly one reason code per requested topic and every code is admissible for the
+  packet type — and then the handler's codes are the acknowledgement's codes, unchanged and in order. -/
 namespace Mqtt5V.Props.C14
+open Mqtt5V Mqtt5V.Model.Verdict Mqtt5V.Model.ReasonCode
+
+/-- **Wrong count or inadmissible code ⇒ never success; success ⇒ the acknowledgement's codes, one per topic, in order** -/
+theorem verdict_success_iff (cat : Category) (n : Nat) (codes v : List Nat) :
+    verdict cat n codes = some v ↔ (codes.length = n ∧ (∀ c ∈ codes, admitted cat c = true) ∧ v = codes) := by
+  simp only [verdict, toReasonCodes]
+  constructor
+  · intro h
+    by_cases hc : (codes.length != n || (codes.filter (admitted cat)).length != n) = true
+    · simp [hc] at h
+    · simp [hc] at h
+      have h1 : codes.length = n := by
+        cases Nat.decEq codes.length n with
+        | isTrue e => exact e
+        | isFalse e => exact absurd (by simp [e]) hc
+      have h2 : (codes.filter (admitted cat)).length = n := by
+        cases Nat.decEq (codes.filter (admitted cat)).length n with
+        | isTrue e => exact e
+        | isFalse e => exact absurd (by simp [e]) hc
+      have hall : ∀ c ∈ codes, admitted cat c = true := by
+        intro c hc'
+        cases hna : admitted cat c with
+        | true => rfl
+        | false =>
+          have hlt : (codes.filter (admitted cat)).length < codes.length :=
+            List.length_filter_lt_length_iff_exists.mpr ⟨c, hc', by simp [hna]⟩
+          omega
+      exact ⟨h1, hall, by rw [← h, List.filter_eq_self.mpr hall]⟩
+  · rintro ⟨h1, h2, rfl⟩
+    have hall : v.filter (admitted cat) = v := List.filter_eq_self.mpr h2
+    simp [hall, h1]
+
+theorem bad_ack_never_success (cat : Category) (n : Nat) (codes : List Nat)
+    (h : codes.length ≠ n ∨ ∃ c ∈ codes, admitted cat c = false) : verdict cat n codes = none := by
+  cases hv : verdict cat n codes with
+  | none => rfl
+  | some v =>
+    obtain ⟨h1, h2, _⟩ := (verdict_success_iff cat n codes v).mp hv
+    rcases h with h | ⟨c, hc, hna⟩
+    · exact absurd h1 h
+    · rw [h2 c hc] at hna; cases hna
+
+/-- the admission used here is the C20 lookup: an admitted code is one MQTT 5 lists for SUBACK / UNSUBACK -/
+theorem admitted_iff_hit (cat : Category) (c : Nat) : admitted cat c = true ↔ ∃ v, toReasonCode cat c = .hit v := by
+  unfold admitted; split <;> simp_all
+
+/-- SUBACK / UNSUBACK reach only the waiter registered for (0x90 / 0xB0, the request's packet identifier) -/
+theorem suback_routed_by_code_and_id (r : Model.Replies.R) (code p t : Nat) :
+    (Model.Replies.step r (.dispatch code p t)).2 = [] ∨
+    ∃ h ∈ r.handlers, h.code = code ∧ h.pid = p ∧ (Model.Replies.step r (.dispatch code p t)).2 = [⟨h.w, .ok, t⟩] :=
+  C01.dispatch_completes_only_matching_waiter r code p t
+
+/-- non-vacuity and the repaired defect as a fact about the model: 3 codes (one invalid) for 2 topics is not success -/
+example : verdict .suback 2 [0x00, 0xFF, 0x01] = none ∧ verdict .suback 2 [0x00, 0x87] = some [0x00, 0x87] := by decide
+
 end Mqtt5V.Props.C14
